@@ -298,12 +298,21 @@ class Tracer:
         self.grid = None
         self.nstep = 0
         self.real_f = None
+        self.live = []          # (module, name, original, recorder) currently patched into rk's namespace
 
     def _call(self, fn, a, kw):
-        """Call the compiled helper positionally, with the recording rhs wrapper swapped back for the real one."""
+        """Call the compiled helper positionally, with the recording rhs wrapper swapped back for the real one.
+        numba resolves a function's globals when it compiles, and a helper may compile lazily for a signature it has
+        not seen yet: the recorders are therefore taken out of rk's namespace for the duration of the call."""
         args = _bind(fn, a, kw)
         vals = [self.real_f if (nm == "f" and self.real_f is not None) else val for nm, val in args]
-        return dict(args), fn(*vals)
+        for owner, name, orig, new in self.live:
+            setattr(owner, name, orig)
+        try:
+            return dict(args), fn(*vals)
+        finally:
+            for owner, name, orig, new in self.live:
+                setattr(owner, name, new)
 
     def _step(self, fn):
         def w(*a, **kw):
@@ -359,6 +368,8 @@ class Tracer:
 
         def patch(owner, name, new, static=False):
             saved.append((owner, name, owner.__dict__[name] if isinstance(owner, type) else getattr(owner, name)))
+            if not isinstance(owner, type):
+                tr.live.append((owner, name, getattr(owner, name), new))
             setattr(owner, name, staticmethod(new) if static else new)
 
         def wrap_kernel(owner, name, static):
@@ -419,6 +430,7 @@ class Tracer:
         finally:
             for owner, name, orig in reversed(saved):
                 setattr(owner, name, orig)
+            self.live = []
         res = {"times": np.asarray(sol.times, dtype=np.float64), "states": np.asarray(sol.states, dtype=np.float64),
                "derivs": None if getattr(sol, "derivatives", None) is None else np.asarray(sol.derivatives, dtype=np.float64)}
         if self.traced:
@@ -427,6 +439,32 @@ class Tracer:
                                 "x": _flat(res["times"]) + _flat(res["states"])
                                 + (_flat(res["derivs"]) if res["derivs"] is not None else [])})
         return self.kernel, res, self.events
+
+
+ROUND_TOL = 1e-11      # relative; rounding accumulations measured here are < 1e-13, one-copy changes > 1e-9
+
+
+def _reldiff(a, b):
+    if a is None or b is None:
+        return 0.0 if (a is None and b is None) else float("inf")
+    if a.shape != b.shape:
+        return float("inf")
+    if a.size == 0:
+        return 0.0
+    with np.errstate(all="ignore"):
+        d = np.abs(a - b) / np.maximum(np.maximum(np.abs(a), np.abs(b)), 1e-3)
+    d = np.where(np.isnan(d), np.inf, d)
+    return float(np.max(d))
+
+
+def _events_close(ge, he):
+    """Same event kind and payloads equal up to ROUND_TOL (used only to classify a TLC rejection)."""
+    if ge is None or he is None or ge.get("e") != he.get("e") or ge.get("n") != he.get("n") or ge.get("c") != he.get("c") \
+            or ge.get("hit") != he.get("hit") or len(ge.get("x", ())) != len(he.get("x", ())):
+        return False
+    xa = np.array([ge.get(k, 0.0) for k in ("t", "h", "tn", "th")] + list(ge.get("x", ())), dtype=float)
+    xb = np.array([he.get(k, 0.0) for k in ("t", "h", "tn", "th")] + list(he.get("x", ())), dtype=float)
+    return _reldiff(xa, xb) <= ROUND_TOL
 
 
 def bits_equal(a, b):
@@ -475,18 +513,24 @@ def rank_traces(gen, ham, extra):
 
 
 def twin_configs(v, rnd, quick):
-    """Problem instances for one variant: twin Hamiltonian index, initial state, grid, tolerances, event direction."""
+    """Problem instances for one variant: twin Hamiltonian index, initial state, grid, tolerances, event direction.
+    All of them stay bounded (a NaN would make the adaptive drivers loop forever): Twin1/Twin3 have a positive
+    definite quadratic part and small amplitudes; the saddle Twin2 is run from a tenth of the amplitude for T = 1."""
+    base = [[0.125, -0.0625, 0.09375, 0.046875, 0.078125, -0.109375],
+            [0.05, 0.11, -0.07, -0.02, 0.13, 0.03]]
+    adaptive = v["family"] == "adaptive"
+    plan = [(1, 0, 1.0, 0)]                                   # (twin, y0 index, amplitude scale, tolerance index)
+    if adaptive:
+        plan.append((1, 0, 3.0, 1))                           # tight tolerance, larger amplitude: rejected steps occur
+    if not quick:
+        plan += [(2, 1, 0.1, 0), (3, 1, 1.0, 1 if adaptive else 0), (3, 0, 2.0, 0)]
     cfgs = []
-    y0s = [[0.125, -0.0625, 0.09375, 0.046875, 0.078125, -0.109375],
-           [0.05, 0.11, -0.07, -0.02, 0.13, 0.03]]
-    n = 1 if quick else 2
-    for i in range(n):
-        T = 2.0 if v["family"] != "adaptive" else 3.0
-        ngrid = 9 if v["family"] != "adaptive" else 7
+    for i, (tw, yi, sc, ti) in enumerate(plan):
+        T = 1.0 if tw == 2 else (3.0 if (adaptive and (ti == 0 or v["order"] == 8)) else (1.5 if adaptive else 2.0))
+        ngrid = 7 if adaptive else 9
         grid = np.linspace(0.0, -T if v["dir"] == "gridrev" else T, ngrid)
-        c = {"y0": y0s[i % 2], "grid": [float(x) for x in grid], "twin": 1 + (i % (1 if quick else 3)),
-             "rtol": [1e-6, 1e-10][i % 2], "atol": [1e-9, 1e-12][i % 2], "evdir": [0, 1, -1][(i + v["order"]) % 3]}
-        cfgs.append(c)
+        cfgs.append({"y0": [sc * z for z in base[yi]], "grid": [float(x) for x in grid], "twin": tw,
+                     "rtol": [1e-6, 1e-10][ti], "atol": [1e-9, 1e-12][ti], "evdir": [0, 1, -1][(i + v["order"]) % 3]})
     return cfgs
 
 
@@ -521,6 +565,7 @@ def check_twins(ck: Check, bad: list, variants: list, twins: dict, rnd, rhs_eval
     L = lib()
     systems_by_twin = {}
     traces, meta = [], []
+    rounding: list = []
     n_rej = n_hit = n_pairs = 0
     t_compile = time.time()
     for rec in variants:
@@ -567,15 +612,18 @@ def check_twins(ck: Check, bad: list, variants: list, twins: dict, rnd, rhs_eval
                     bad.append((f"dispatch|{v['family']}-{v['dir']}-{path}",
                                 f"{path} path of {v} ran kernel {outs[path]['kernel']}, the dispatch model says {rec['kernel'][path]}",
                                 dict(data, observed=outs[path]["kernel"])))
-            # compiled outputs, bit for bit
+            # compiled outputs: bit for bit on a consistent tree; a difference at rounding level (one copy re-associated
+            # a sum) is still "the same trajectory" and is recorded, anything above ROUND_TOL is a violation
             diffs = [nm for nm in ("times", "states", "derivs") if not bits_equal(g["res"][nm], hm["res"][nm])]
             if diffs:
-                a, b = g["res"]["states"], hm["res"]["states"]
-                md = float(np.max(np.abs(a - b))) if a.shape == b.shape else float("nan")
-                bad.append((f"{rec['kernel']['ham']}|differs-from-generic-path",
-                            f"{rec['kernel']['ham']} and {rec['kernel']['generic']} disagree on {diffs} for variant {v} "
-                            f"(max state difference {md:.3e}; bit-identical on a consistent tree)",
-                            dict(data, observed={"differs": diffs, "max_state_diff": md})))
+                md = max(_reldiff(g["res"][nm], hm["res"][nm]) for nm in diffs)
+                if md <= ROUND_TOL:
+                    rounding.append(md)
+                else:
+                    bad.append((f"{rec['kernel']['ham']}|differs-from-generic-path",
+                                f"{rec['kernel']['ham']} and {rec['kernel']['generic']} disagree on {diffs} for variant {v} "
+                                f"(max relative difference {md:.3e}; bit-identical on a consistent tree)",
+                                dict(data, observed={"differs": diffs, "max_rel_diff": md})))
             # traced runs -> TLC
             if v["dir"] == "directed":
                 gen_ev = [{"e": "start", "k": g["kernel"]}]
@@ -623,10 +671,18 @@ def check_twins(ck: Check, bad: list, variants: list, twins: dict, rnd, rhs_eval
             continue
         kind = (ge or he or {}).get("e", "?")
         nm = (ge or he or {}).get("n", "")
+        if len(gen_ev) == len(ham_ev) and all(_events_close(a, b) for a, b in zip(gen_ev[1:], ham_ev[1:])):
+            rounding.append(max(_reldiff(np.array(a.get("x", [0.0]), dtype=float), np.array(b.get("x", [0.0]), dtype=float))
+                                for a, b in zip(gen_ev[1:], ham_ev[1:])))
+            ck.notes.append(f"traces of {rec['kernel']['generic']} / {rec['kernel']['ham']} differ at rounding level only "
+                            f"(first at event {line}, {kind} {nm}) for {v}")
+            continue
         bad.append((f"{rec['kernel']['ham']}|trace-diverges-from-generic-path",
                     f"traces of {rec['kernel']['generic']} and {rec['kernel']['ham']} first differ at event {line} "
                     f"({kind} {nm}) for variant {v}: generic {str(ge)[:160]} / ham {str(he)[:160]}",
                     dict(data, observed={"event": line, "generic": ge, "ham": he})))
+    ck.part("twins", rounding_level_pairs=len(rounding), max_rounding_level_diff=max(rounding, default=0.0),
+            rounding_tolerance=ROUND_TOL)
 
     # binding self-test: corrupt the LAST event, drop an event, flip an accept
     cand = [i for i in full if i not in rej]
@@ -699,62 +755,135 @@ def _bg(fn):
     return th, box
 
 
+def twin_child(inp: str, outp: str) -> int:
+    """Child process: the twin integrations (a wrong tree may make an adaptive driver loop forever on a NaN; the parent
+    kills this process after a timeout instead of hanging)."""
+    spec = json.load(open(inp))
+    ck = Check("C17", "model_checking", spec["tier"], seed=spec["seed"])
+    bad: list = []
+    lib()
+    twins = {int(k): x for k, x in spec["twins"].items()}
+    hs, _ = make_hamsys(twins[1]["H"])
+    try:
+        hs.rhs(0.0, np.array([0.125, -0.0625, 0.09375, 0.046875, 0.078125, -0.109375]))
+        evaluable = True
+    except Exception:
+        evaluable = False
+    import shutil
+    import common
+    try:
+        check_twins(ck, bad, spec["variants"], twins, random.Random(spec["seed"]), evaluable)
+    except MachineryError as ex:
+        json.dump({"machinery": str(ex)}, open(outp, "w"))
+        return 2
+    finally:
+        shutil.rmtree(common.WORK, ignore_errors=True)
+    json.dump({"bad": bad, "parts": ck.cov["parts"], "notes": ck.notes, "evaluations": ck.cov["evaluations"],
+               "distinct": [h.hex() for h in ck._distinct], "traces": ck.cov["traces_validated_against_impl"]},
+              open(outp, "w"), default=str)
+    return 0
+
+
 def main(tier=None, replay=None):
     ck = Check("C17", "model_checking", tier)
-    rnd = random.Random(ck.seed)
     if replay:
         return replay_one(json.load(open(replay))["data"], replay)
+    import subprocess
+    from common import workdir
+
+    # variant space + twin Hamiltonians first: the twin stage runs in a child process from the start
+    box1 = {}
+    th1, b1 = _bg(lambda: tlc(TWIN, CFG / f"HamTwin.{ck.tier}.cfg", coverage=ck.quick, timeout=900, workers=4))
+    r_twin = tlc(RHS, CFG / "HamRhs.twin.cfg", timeout=600, workers=2)
+    th1.join()
+    if "e" in b1:
+        raise b1["e"]
+    r_model = b1["r"]
+    ck.model("HamRhs.twin", r_twin)
+    ck.model("HamTwin." + ck.tier, r_model, required_actions=("Start", "Reject", "RefineCore"))
+    twins = {x["twin"]: x for x in r_twin.printed() if x.get("twin")}
+    variants = [x for x in r_model.printed() if "variant" in x]
+    if len(twins) < 3 or len(variants) < 30:
+        raise MachineryError(f"generation too small: twins {len(twins)} variants {len(variants)}")
+    variants.sort(key=lambda r: json.dumps(r["variant"], sort_keys=True))
+    wd = workdir("c17")
+    inp, outp = wd / "twin_in.json", wd / "twin_out.json"
+    inp.write_text(json.dumps({"tier": ck.tier, "seed": ck.seed, "variants": variants, "twins": twins}))
+    child = subprocess.Popen([sys.executable, os.path.abspath(__file__), "--twin-child", str(inp), str(outp)],
+                             stdout=subprocess.PIPE, stderr=subprocess.STDOUT, text=True)
 
     def gen():
         out = {}
         out["mono"] = tlc(RHS, CFG / f"HamRhs.mono.{ck.tier}.cfg", timeout=900, workers=4)
-        out["twin"] = tlc(RHS, CFG / "HamRhs.twin.cfg", timeout=600, workers=2)
         out["walk"] = tlc(RHS, CFG / "HamRhs.walk.cfg", simulate="num=%d" % (40 if ck.quick else 400), seed=ck.seed, depth=120,
                           workers=4, timeout=900)
         out["walkbig"] = tlc(RHS, CFG / "HamRhs.walkbig.cfg", simulate="num=%d" % (15 if ck.quick else 300), seed=ck.seed + 1,
                              depth=160, workers=4, timeout=900)
-        out["model"] = tlc(TWIN, CFG / f"HamTwin.{ck.tier}.cfg", coverage=ck.quick, timeout=900)
         return out
-    th, box = _bg(gen)
-    lib()
-    th.join()
-    if "e" in box:
-        raise box["e"]
-    runs = box["r"]
-    ck.model("HamRhs.mono." + ck.tier, runs["mono"])
-    ck.model("HamRhs.twin", runs["twin"])
-    ck.model("HamTwin." + ck.tier, runs["model"], required_actions=("Start", "Accept", "Reject", "Cross", "RefineCore"))
-    for nm in ("walk", "walkbig"):
-        if runs[nm].error or not runs[nm].ok:
-            raise MachineryError(f"HamRhs {nm} generation failed: {runs[nm].error or runs[nm].invariant_violated}\n"
-                                 + runs[nm].counterexample()[:3000])
-    twins = {x["twin"]: x for x in runs["twin"].printed() if x.get("twin")}
-    insts, seen = [], set()
-    for nm in ("twin", "mono", "walk", "walkbig"):
-        for x in runs[nm].printed():
+    try:
+        th, box = _bg(gen)
+        lib()
+        th.join()
+        if "e" in box:
+            raise box["e"]
+        runs = box["r"]
+        ck.model("HamRhs.mono." + ck.tier, runs["mono"])
+        for nm in ("walk", "walkbig"):
+            if runs[nm].error or not runs[nm].ok:
+                raise MachineryError(f"HamRhs {nm} generation failed: {runs[nm].error or runs[nm].invariant_violated}\n"
+                                     + runs[nm].counterexample()[:3000])
+        insts, seen = [], set()
+        for x in list(twins.values()) + runs["mono"].printed() + runs["walk"].printed() + runs["walkbig"].printed():
             if "H" in x:
                 k = json.dumps(x["H"], sort_keys=True)
                 if k not in seen:
                     seen.add(k)
                     insts.append(x)
-    variants = [x for x in runs["model"].printed() if "variant" in x]
-    if len(twins) < 3 or len(insts) < 50 or len(variants) < 30:
-        raise MachineryError(f"generation too small: twins {len(twins)} instances {len(insts)} variants {len(variants)}")
-    ck.part("instances", hamiltonians=len(insts), variants=len(variants))
+        if len(insts) < 50:
+            raise MachineryError(f"generation too small: instances {len(insts)}")
+        ck.part("instances", hamiltonians=len(insts), variants=len(variants))
 
-    bad: list = []
-    t0 = time.time()
-    rhs_evaluable = check_rhs(ck, bad, insts, n_public=4 if ck.quick else 25)
-    ck.part("rhs", wall_s=round(time.time() - t0, 1), public_rhs_evaluable=rhs_evaluable, mismatches=len(bad))
-    for x in insts[:3]:
-        ck.sample({"H": x["H"], "x": x["pts"][0], "rhs": x["rhs"][0]})
+        bad: list = []
+        t0 = time.time()
+        rhs_evaluable = check_rhs(ck, bad, insts, n_public=4 if ck.quick else 25)
+        ck.part("rhs", wall_s=round(time.time() - t0, 1), public_rhs_evaluable=rhs_evaluable, mismatches=len(bad))
+        for x in insts[:3]:
+            ck.sample({"H": x["H"], "x": x["pts"][0], "rhs": x["rhs"][0]})
 
-    variants.sort(key=lambda r: json.dumps(r["variant"], sort_keys=True))
-    check_twins(ck, bad, variants, twins, rnd, rhs_evaluable)
+        # twin stage result
+        limit = (170 if ck.quick else 1100) - (time.time() - ck.t0)
+        try:
+            cout, _ = child.communicate(timeout=max(limit, 30))
+        except subprocess.TimeoutExpired:
+            child.kill()
+            child.communicate()
+            msg = ("the twin integrations did not terminate within the time limit (an integration of this tree does not "
+                   "return: a driver loops, e.g. on a NaN)")
+            if not bad:
+                raise MachineryError(msg)
+            ck.notes.append(msg + "; twin stage abandoned, violations of the right-hand-side stage are reported")
+            cout = None
+        if cout is not None:
+            if not outp.exists():
+                raise MachineryError("twin child failed:\n" + (cout or "")[-3000:])
+            res = json.loads(outp.read_text())
+            if "machinery" in res:
+                raise MachineryError(res["machinery"])
+            bad += [tuple(b) for b in res["bad"]]
+            for k, val in res["parts"].items():
+                ck.cov["parts"][k] = val
+            ck.notes += res["notes"]
+            ck.cov["evaluations"] += res["evaluations"]
+            ck._distinct |= {bytes.fromhex(h) for h in res["distinct"]}
+            ck.cov["traces_validated_against_impl"] += res["traces"]
+            ck.cov["states"] += res["parts"].get("trace_validation", {}).get("states", 0)
+    finally:
+        if child.poll() is None:
+            child.kill()
 
     by_key: dict = {}
     for key, desc, data in bad:
-        size = len(json.dumps(data, default=str))
+        size = len(json.dumps(data, default=str)) + (10 ** 6 if not any(data.get("expect") or [1]) else 0)
         if key not in by_key or size < by_key[key][2]:
             by_key[key] = (desc, data, size)
     for key, (desc, data, _) in sorted(by_key.items()):
@@ -767,9 +896,10 @@ def main(tier=None, replay=None):
     ck.cov["exhaustive"] = True
     ck.assumptions += [
         "the generic twin is a compiled closure over tuples of the Jacobian blocks calling the library's _hamiltonian_rhs: "
-        "both paths execute the same floating operations, so bit-equality is the correct requirement",
-        "traced runs execute the kernels' py_func (source) with compiled helpers; they are paired with compiled runs whose "
-        "outputs must be bit-identical (differences are listed in notes, not reported as violations)",
+        "both paths execute the same floating operations, so bit-equality is expected; differences up to 1e-11 relative "
+        "are recorded as rounding-level agreement, larger ones are violations",
+        "traced runs execute the kernels' py_func (source) with compiled helpers (numpy.linalg.norm replaced by numba's); "
+        "they are paired with compiled runs whose outputs must be bit-identical (differences are listed in notes)",
         "adaptive drivers with decreasing grids are outside the variant space (property C10)",
         "symplectic variants have no generic twin: event path with a never-firing event == plain path, evaluator exact (part 1)",
     ]
@@ -825,4 +955,6 @@ def replay_one(data, path) -> int:
 
 
 if __name__ == "__main__":
+    if len(sys.argv) >= 4 and sys.argv[1] == "--twin-child":
+        sys.exit(twin_child(sys.argv[2], sys.argv[3]))
     sys.exit(main())
